@@ -484,6 +484,47 @@ impl<'a> Outbound<'a> {
     }
 }
 
+#[cfg(feature = "verif-hooks")]
+impl Outbound<'_> {
+    pub(super) fn verif_snapshot(&self, state: &mut crate::verif::VerifState) {
+        use crate::verif::VerifSend;
+        fn send(state: SendState) -> VerifSend {
+            match state {
+                SendState::Write { written } => VerifSend::Write(written),
+                SendState::Flush => VerifSend::Flush,
+                SendState::Sent => VerifSend::Sent,
+            }
+        }
+        state.used = self.used;
+        state.capacity = self.buf.len();
+        for entry in &self.retained {
+            let _ = state
+                .retained
+                .push((entry.packet_id, entry.offset, entry.len, send(entry.state)));
+        }
+        for entry in &self.pending_release {
+            let _ = state
+                .release
+                .push((entry.packet_id, entry.reason.into(), send(entry.state)));
+        }
+        for entry in &self.pending_control {
+            let (kind, packet_id, reason) = match entry.action {
+                ControlAction::PubAck { packet_id, reason } => (4u8, packet_id, reason.into()),
+                ControlAction::PubRec { packet_id, reason } => (5u8, packet_id, reason.into()),
+                ControlAction::PubComp { packet_id, reason } => (7u8, packet_id, reason.into()),
+                ControlAction::PingReq => (12u8, 0u16, 0u8),
+            };
+            let _ = state
+                .control
+                .push((kind, packet_id, reason, send(entry.state)));
+        }
+    }
+
+    pub(super) fn verif_arena(&self) -> &[u8] {
+        self.buf
+    }
+}
+
 pub(super) fn serialize_control_packet<E>(
     buffer: &mut [u8],
     packet: ControlAction,
